@@ -4,7 +4,7 @@
    (None = outside the documented range), see C03_Proofs.v. *)
 From Coq Require Import String ZArith List Bool QArith.
 From HD Require Import Base.Val Base.PySlice C03_Model C03_Proofs C03_Proofs_Geom C03_Proofs_Stack C03_Proofs_Sub
-  C03_Proofs_Infer C03_Proofs_Strict C03_Proofs_NoHint.
+  C03_Proofs_Infer C03_Proofs_Strict C03_Proofs_NoHint C03_Proofs_Perm.
 From HD Require Base.Lin3.
 Import ListNotations.
 Open Scope Z_scope.
@@ -625,3 +625,121 @@ Example C03_nohint_example :
             = Ok (G, 5%Z, [4; 0; 1]%Z) /\ a0 G =v= vscale (5 # 2) (normal rc cc).
 Proof. eexists. split; [vm_compute; reflexivity|]. vm_compute. repeat split; intros; discriminate. Qed.
 Print Assumptions C03_nohint_example.
+
+(* ---- volumes rearranged through the Volume API before they are encoded ------------------ *)
+(* permute_spatial_axes / swap_spatial_axes / flip_spatial / to_patient_orientation hand the
+   constructor numpy VIEWS (transposed, negative strides) with a rearranged affine.  In the model
+   (value semantics; memory layout is not an input) they move no voxel and change no value. *)
+Open Scope Z_scope.
+(* acceptance of permute_spatial_axes, exactly; every refusal is a ValueError *)
+Theorem C03_permute_accept_iff : forall p V,
+  ((exists V', qvol_permute p V = Ok V') <->
+   (exists p0 p1 p2, p = [p0; p1; p2] /\
+      0 <= p0 <= 2 /\ 0 <= p1 <= 2 /\ 0 <= p2 <= 2 /\ p0 <> p1 /\ p0 <> p2 /\ p1 <> p2)) /\
+  ((forall V', qvol_permute p V <> Ok V') -> qvol_permute p V = Err "ValueError"%string).
+Proof. exact permute_accept_full. Qed.
+Print Assumptions C03_permute_accept_iff.
+
+(* every voxel (j0, j1, j2) of a well-shaped volume is the voxel of the permuted volume whose
+   index along result axis k is the input index along axis p_k - same value, same physical
+   position - and the result is well shaped with the extents permuted like the axes *)
+Theorem C03_permute_voxel_fixed : forall (V V' : qvol) (n0 n1 n2 p0 p1 p2 : Z),
+  1 <= n0 -> 1 <= n1 -> 1 <= n2 -> well3 n0 n1 n2 (q_arr V) ->
+  qvol_permute [p0; p1; p2] V = Ok V' ->
+  (forall j0 j1 j2 : Z,
+     physZ (qvol_aff V') (sel3 p0 j0 j1 j2) (sel3 p1 j0 j1 j2) (sel3 p2 j0 j1 j2)
+     =v= physZ (qvol_aff V) j0 j1 j2) /\
+  (forall j0 j1 j2 : Z, 0 <= j0 < n0 -> 0 <= j1 < n1 -> 0 <= j2 < n2 ->
+     vox (q_arr V') (sel3 p0 j0 j1 j2) (sel3 p1 j0 j1 j2) (sel3 p2 j0 j1 j2) = vox (q_arr V) j0 j1 j2) /\
+  well3 (sel3 p0 n0 n1 n2) (sel3 p1 n0 n1 n2) (sel3 p2 n0 n1 n2) (q_arr V') /\
+  arr_shape (q_arr V') = (sel3 p0 n0 n1 n2, sel3 p1 n0 n1 n2, sel3 p2 n0 n1 n2).
+Proof. exact permute_voxel_fixed_full. Qed.
+Print Assumptions C03_permute_voxel_fixed.
+
+Theorem C03_flip_accept_iff : forall axes V,
+  (exists V', qvol_flip axes V = Ok V') <->
+  ((length axes <= 3)%nat /\ Forall (fun a => 0 <= a <= 2) axes).
+Proof. exact qvol_flip_accept_iff. Qed.
+Print Assumptions C03_flip_accept_iff.
+
+(* swap_spatial_axes(a, b) = permute_spatial_axes with the transposition of a and b *)
+Theorem C03_swap_accept_iff : forall a b V,
+  (exists V', qvol_swap a b V = Ok V') <-> (0 <= a <= 2 /\ 0 <= b <= 2 /\ a <> b).
+Proof. exact qvol_swap_accept_iff. Qed.
+Print Assumptions C03_swap_accept_iff.
+
+(* flip_spatial: voxel (j0, j1, j2) is the voxel of the result with the index mirrored along
+   every listed axis - same value, same physical position; the shape is unchanged *)
+Theorem C03_flip_voxel_fixed : forall (V V' : qvol) (axes : list Z) (n0 n1 n2 : Z),
+  1 <= n0 -> 1 <= n1 -> 1 <= n2 -> well3 n0 n1 n2 (q_arr V) ->
+  qvol_flip axes V = Ok V' ->
+  (forall j0 j1 j2 : Z,
+     physZ (qvol_aff V') (flip_ix (flipped axes 0) n0 j0) (flip_ix (flipped axes 1) n1 j1)
+           (flip_ix (flipped axes 2) n2 j2)
+     =v= physZ (qvol_aff V) j0 j1 j2) /\
+  (forall j0 j1 j2 : Z, 0 <= j0 < n0 -> 0 <= j1 < n1 -> 0 <= j2 < n2 ->
+     vox (q_arr V') (flip_ix (flipped axes 0) n0 j0) (flip_ix (flipped axes 1) n1 j1)
+         (flip_ix (flipped axes 2) n2 j2) = vox (q_arr V) j0 j1 j2) /\
+  well3 n0 n1 n2 (q_arr V') /\ arr_shape (q_arr V') = (n0, n1, n2).
+Proof. exact flip_voxel_fixed_full. Qed.
+Print Assumptions C03_flip_voxel_fixed.
+
+(* END TO END: V (any axis order, e.g. a NIfTI-style (x, y, z) array) --permute_spatial_axes-->
+   V' (unit orthogonal in-plane axes, stacked right- (lh = false) or left-handedly (lh = true))
+   --Segmentation(pixel_array = V'), get_volume()--> every voxel of V is found with its value at
+   the physical position V gave it (index mirrored along axis 0 when V' is left handed) *)
+Open Scope Q_scope.
+Theorem C03_permuted_volume_roundtrip : forall (V V' : qvol) p0 p1 p2 (n0 n1 n2 : Z) (lh : bool),
+  (1 <= n0)%Z -> (1 <= n1)%Z -> (1 <= n2)%Z -> well3 n0 n1 n2 (q_arr V) ->
+  qvol_permute [p0; p1; p2] V = Ok V' ->
+  vdot (q_d1 V') (q_d1 V') == 1 -> vdot (q_d2 V') (q_d2 V') == 1 -> vdot (q_d1 V') (q_d2 V') == 0 ->
+  q_d0 V' =v= hand lh (vcross (q_d1 V') (q_d2 V')) -> 0 < q_s0 V' ->
+  let m0 := sel3 p0 n0 n1 n2 in
+  exists G out,
+    get_volume true (seg_from_qvol V' false) None None None None None None false
+    = Ok ((m0, sel3 p1 n0 n1 n2, sel3 p2 n0 n1 n2), G, out) /\
+    forall j0 j1 j2 : Z, (0 <= j0 < n0)%Z -> (0 <= j1 < n1)%Z -> (0 <= j2 < n2)%Z ->
+      physZ G (flip_ix lh m0 (sel3 p0 j0 j1 j2)) (sel3 p1 j0 j1 j2) (sel3 p2 j0 j1 j2)
+      =v= physZ (qvol_aff V) j0 j1 j2 /\
+      vox out (flip_ix lh m0 (sel3 p0 j0 j1 j2)) (sel3 p1 j0 j1 j2) (sel3 p2 j0 j1 j2)
+      = vox (q_arr V) j0 j1 j2.
+Proof. exact permuted_volume_roundtrip. Qed.
+Print Assumptions C03_permuted_volume_roundtrip.
+
+(* the same for flip_spatial (to_patient_orientation = flip_spatial, then permute_spatial_axes) *)
+Theorem C03_flipped_volume_roundtrip : forall (V V' : qvol) axes (n0 n1 n2 : Z) (lh : bool),
+  (1 <= n0)%Z -> (1 <= n1)%Z -> (1 <= n2)%Z -> well3 n0 n1 n2 (q_arr V) ->
+  qvol_flip axes V = Ok V' ->
+  vdot (q_d1 V') (q_d1 V') == 1 -> vdot (q_d2 V') (q_d2 V') == 1 -> vdot (q_d1 V') (q_d2 V') == 0 ->
+  q_d0 V' =v= hand lh (vcross (q_d1 V') (q_d2 V')) -> 0 < q_s0 V' ->
+  exists G out,
+    get_volume true (seg_from_qvol V' false) None None None None None None false = Ok ((n0, n1, n2), G, out) /\
+    forall j0 j1 j2 : Z, (0 <= j0 < n0)%Z -> (0 <= j1 < n1)%Z -> (0 <= j2 < n2)%Z ->
+      physZ G (flip_ix lh n0 (flip_ix (flipped axes 0) n0 j0)) (flip_ix (flipped axes 1) n1 j1)
+            (flip_ix (flipped axes 2) n2 j2)
+      =v= physZ (qvol_aff V) j0 j1 j2 /\
+      vox out (flip_ix lh n0 (flip_ix (flipped axes 0) n0 j0)) (flip_ix (flipped axes 1) n1 j1)
+          (flip_ix (flipped axes 2) n2 j2)
+      = vox (q_arr V) j0 j1 j2.
+Proof. exact flipped_volume_roundtrip. Qed.
+Print Assumptions C03_flipped_volume_roundtrip.
+
+(* non-vacuity: an anisotropic 2 x 3 x 2 (x, y, z) volume (L, P, F) brought to slices-first order
+   by permute_spatial_axes([2, 1, 0]) meets every hypothesis of C03_permuted_volume_roundtrip and
+   its array is really rearranged; the same volume flipped along axes 0 and 2 *)
+Example C03_permuted_example : exists V',
+  qvol_permute [2; 1; 0]%Z perm_example_V = Ok V' /\
+  well3 2 3 2 (q_arr perm_example_V) /\
+  vdot (q_d1 V') (q_d1 V') == 1 /\ vdot (q_d2 V') (q_d2 V') == 1 /\ vdot (q_d1 V') (q_d2 V') == 0 /\
+  q_d0 V' =v= hand false (vcross (q_d1 V') (q_d2 V')) /\ 0 < q_s0 V' /\
+  q_arr V' = [[[1; 0]; [0; 5]; [3; 0]]; [[0; 4]; [2; 0]; [0; 6]]]%Z /\
+  vox (q_arr V') 1 1 0 = vox (q_arr perm_example_V) 0 1 1.
+Proof. exact perm_example. Qed.
+Print Assumptions C03_permuted_example.
+
+Example C03_flipped_example : exists V',
+  qvol_flip [0; 2]%Z perm_example_V = Ok V' /\
+  q_pos V' =v= V3 (-20 + (4 # 5)) (-35) (60 - (5 # 2)) /\
+  q_arr V' = [[[4; 0]; [0; 5]; [6; 0]]; [[0; 1]; [2; 0]; [0; 3]]]%Z.
+Proof. exact flip_example. Qed.
+Print Assumptions C03_flipped_example.
